@@ -188,6 +188,8 @@ int main(int argc, char **argv)
                 else if (!strcmp(a, "--var-init")) W.var_init = atoi(ARG());
                 else if (!strcmp(a, "--str-full")) W.str_full = atoi(ARG());
                 else if (!strcmp(a, "--refusal-probe")) W.refusal_probe = atoi(ARG());
+                else if (!strcmp(a, "--stale-usize")) W.stale_usize = atoi(ARG());
+                else if (!strcmp(a, "--alias-group")) W.alias_group = atoi(ARG());
                 else if (!strcmp(a, "--interfere")) W.interfere = atoi(ARG());
                 else if (!strcmp(a, "--max-states")) o.max_states = strtoull(ARG(), NULL, 10);
                 else if (!strcmp(a, "--deadline")) o.deadline_s = atof(ARG());
